@@ -217,4 +217,121 @@ theorem scan_level_single_lemma (fkeys : List (Str × KeyInfo)) (rl x : Nat)
     simp only [hfil, hc0, hfil2, hits]
     rfl
 
+/-! ## T6: overall merge -/
+
+abbrev MemTest := Int → Int → Int → Int → Except Err Bool
+
+@[simp] theorem ebind_error {ε α β : Type} (e : ε) (f : α → Except ε β) : ((Except.error e : Except ε α) >>= f) = Except.error e := rfl
+
+theorem getLast?_mem {α : Type} : ∀ {l : List α} {x : α}, l.getLast? = some x → x ∈ l := by
+  intro l x h
+  exact List.mem_of_getLast? h
+
+theorem mem_dropLast'' {α : Type} {x : α} {l : List α} (h : x ∈ l.dropLast) : x ∈ l := mem_of_mem_dropLast' h
+
+/-- with array segments only, one merge step never consults the membership test
+and keeps the invariant -/
+theorem mergeStep_arrays (mem1 mem2 : MemTest) (sit : List (List Int)) (cur : List Int)
+    (hsit : ∀ s ∈ sit, s.length > 1) (hcur : cur.length > 1) :
+    mergeStep mem1 sit cur = mergeStep mem2 sit cur ∧
+    ∀ r, mergeStep mem1 sit cur = .ok r → ∀ s ∈ r, s.length > 1 := by
+  unfold mergeStep
+  cases hl : sit.getLast? with
+  | none =>
+    refine ⟨rfl, ?_⟩
+    intro r hr s hs
+    simp only at hr
+    injection hr with hr; subst hr
+    simp at hs; subst hs; exact hcur
+  | some prev =>
+    have hp : prev.length > 1 := hsit prev (getLast?_mem hl)
+    have hfront : ∀ s ∈ sit.dropLast, s.length > 1 := fun s hs => hsit s (mem_dropLast'' hs)
+    simp only [hp, hcur, if_true]
+    refine ⟨trivial, ?_⟩
+    intro r hr s hs
+    cases h2 : idxI prev 2 with
+    | error e => simp [h2, ebind_error] at hr
+    | ok pd =>
+      cases h3 : idxI cur 2 with
+      | error e => simp [h2, h3, ebind_error] at hr
+      | ok cd =>
+        simp only [h2, h3, ebind_ok] at hr
+        split at hr
+        · cases h1 : idxI cur 1 with
+          | error e => simp [h1, ebind_error] at hr
+          | ok c1 =>
+            simp only [h1, ebind_ok] at hr
+            injection hr with hr; subst hr
+            rcases List.mem_append.mp hs with hs | hs
+            · exact hfront s hs
+            · simp at hs; subst hs; simpa using hp
+        · injection hr with hr; subst hr
+          rcases List.mem_append.mp hs with hs | hs
+          · exact hsit s hs
+          · simp at hs; subst hs; exact hcur
+
+theorem foldl_mergeStep_arrays (mem1 mem2 : MemTest) : ∀ (segs : List (List Int)) (sit : List (List Int)),
+    (∀ s ∈ segs, s.length > 1) → (∀ s ∈ sit, s.length > 1) →
+    foldlE (mergeStep mem1) sit segs = foldlE (mergeStep mem2) sit segs := by
+  intro segs
+  induction segs with
+  | nil => intro _ _ _; rfl
+  | cons c segs ih =>
+    intro sit hsegs hsit
+    obtain ⟨e, hinv⟩ := mergeStep_arrays mem1 mem2 sit c hsit (hsegs c (List.mem_cons_self ..))
+    simp only [foldlE]
+    rw [← e]
+    cases hr : mergeStep mem1 sit c with
+    | error e' => rfl
+    | ok r => exact ih r (fun s hs => hsegs s (List.mem_cons_of_mem _ hs)) (hinv r hr)
+
+/-- no restart has a single iteration at any level -/
+def NoSingles (cat : Cat) : Prop := ∀ re ∈ cat, ∀ kv ∈ re.2, (valInts kv.2).length > 1
+
+theorem dget_mem {κ ν : Type} [BEq κ] {d : List (κ × ν)} {k : κ} {v : ν} (h : dget d k = some v) :
+    ∃ kv ∈ d, kv.2 = v := by
+  unfold dget at h
+  cases hf : d.find? (fun kv => kv.1 == k) with
+  | none => simp [hf] at h
+  | some kv => simp [hf] at h; exact ⟨kv, List.mem_of_find?_eq_some hf, h⟩
+
+theorem levelSegs_arrays (cat : Cat) (h : NoSingles cat) (rlkey : Str) :
+    ∀ s ∈ levelSegs cat rlkey, s.length > 1 := by
+  intro s hs
+  simp only [levelSegs, List.mem_filterMap] at hs
+  obtain ⟨re, hre, hv⟩ := hs
+  cases hd : dget re.2 rlkey with
+  | none => simp [hd] at hv
+  | some v =>
+    simp [hd] at hv
+    obtain ⟨kv, hkv, hkv2⟩ := dget_mem hd
+    rw [← hv, ← hkv2]
+    exact h re hre kv hkv
+
+theorem foldlE_congr {σ α : Type} (f g : σ → α → Except Err σ) (l : List α) (h : ∀ s, ∀ a ∈ l, f s a = g s a) :
+    ∀ s, foldlE f s l = foldlE g s l := by
+  induction l with
+  | nil => intro s; rfl
+  | cons a l ih =>
+    intro s
+    simp only [foldlE, h s a (List.mem_cons_self ..)]
+    cases g s a with
+    | error e => rfl
+    | ok s' => exact ih (fun s b hb => h s b (List.mem_cons_of_mem _ hb)) s'
+
+/-- **T6 (what can be proven)**: when no restart has a single iteration at any
+level the overall merge does not depend on the membership test at all -/
+theorem overall_no_singles_lemma (mem1 mem2 : MemTest) (cat : Cat) (h : NoSingles cat) :
+    overallWith mem1 cat = overallWith mem2 cat := by
+  unfold overallWith
+  cases rlMax cat with
+  | error e => rfl
+  | ok rlmax =>
+    simp only [ebind_ok]
+    apply foldlE_congr
+    intro ov rl _
+    split
+    · rw [foldl_mergeStep_arrays mem1 mem2 _ [] (levelSegs_arrays cat h _) (by simp)]
+    · rfl
+
 end AurelVerif.CatalogLemmas
